@@ -47,8 +47,8 @@ def gen_names(r, k, net=False, family=False):
     def add(nm, kind):
         if not nm or nm in seen or '"' in nm or "\n" in nm:
             return
-        if net and re.search(r"\[\d+\]$", nm):
-            return
+        if net and re.search(r"\[\d+\]$", nm) and not (nm.startswith("\\") and nm.count(" ") >= 2):
+            return      # (a scalar net named b[3] reads as a bus bit - except the escaped form with blanks inside, which is kept literally)
         seen.add(nm)
         out.append(nm)
         kinds.append(kind)
@@ -88,7 +88,8 @@ def gen_names(r, k, net=False, family=False):
             add(base.swapcase(), "case-only")
         else:
             add(r.choice(["&", "&a", "_", "9", "-", "a-b", "A_b", "a_B", "x[", "x[0", "[3]x", "\\esc ", "a b",
-                          "sig%65%x", "%7%", "q$%48%9", "%1 2 3%", "50%", "a\\", "b\\\\\\", "%%"]), "special")
+                          "sig%65%x", "%7%", "q$%48%9", "%1 2 3%", "50%", "a\\", "b\\\\\\", "%%",
+                          "\\a b c[3]", "\\u1/q  reg[7]", "\\x y z"]), "special")
     if r.random() < 0.12:
         # a percent sign followed by a long run of digits (an EDIF string may hold %<numbers>% escapes; this is none - no closing
         # percent sign - and has to be read as the plain text it is, in time proportional to its length)
